@@ -932,6 +932,9 @@ class Engine:
             if tag == 'boundmethod':
                 obj, meth = fv[1], fv[2]
                 qual = '%s:%s.%s' % (OBJ_MODULE[obj.cls], obj.cls, meth)
+                _m, _fn, _cls = SRC.find_function(qual)
+                if _fn is not None and any(isinstance(d, ast.Name) and d.id == 'staticmethod' for d in _fn.decorator_list):
+                    return self.call_contract(ev, qual, node, path, spec)
                 return self.call_contract(ev, qual, node, path, spec, self_val=obj, self_node=f.value)
             if tag == 'funcref':
                 return self.call_contract(ev, fv[1], node, path, spec)
